@@ -189,6 +189,7 @@ class WireCore(object):
             self.eof = True
         if f == "r_short_raise":
             self.pending_raise = ConnectionResetError("[mem] injected after short read")
+        short_eof = (f == "r_short_eof")
         if self.eof:
             self.clock.advance(1e-3)
             self._log("r", n, timeout, 0)
@@ -242,6 +243,10 @@ class WireCore(object):
             pkt, s = nxt
             self._load(pkt, s)
 
+        if short_eof:
+            # part of the block arrives, then the peer goes away: every later read returns b'' at once
+            self.eof = True
+            return self._deliver(n, timeout, max(1, min(n, len(self.cur[0])) // 2))
         v = self.frag.draw(65536)
         if v == EMPTY_READ and self.empty_run < 3:
             self.empty_run += 1
